@@ -39,6 +39,7 @@ func c11(c *Ctx) {
 	c11order(c)
 	c11parse(c)
 	c11policyName(c)
+	c11priority(c)
 }
 
 func c11loop(c *Ctx, fn *ssa.Function) {
